@@ -5,7 +5,7 @@
  *   VERIF_FAULT="fn:k:errno:calls[;fn:k:errno:calls...]"   fail the k-th call (1-based) of libc function fn that is made FROM the library
  *                                                        under test during the wrapped call(s) whose index is listed in `calls`
  *                                                        ("all", "N-" = from N on, or "i,j,...");  the counter restarts with every wrapped call
- *   VERIF_FAULT_TRACE=1                                  log every counted call:   ftrace<TAB>callidx<TAB>fn<TAB>k
+ *   VERIF_FAULT_TRACE=1                                  log every counted call:   ftrace<TAB>callidx<TAB>fn<TAB>k<TAB>callsite
  *   VERIF_FAULT_OBJ=<substring>                          object name of the library under test (default "lib-prod")
  * Injected faults are logged:   fault<TAB>callidx<TAB>fn<TAB>k<TAB>errno
  * Only calls whose return address lies in the library under test are counted, so the harness's own I/O is never disturbed. */
@@ -73,7 +73,10 @@ static int decide(int fn, void *ra) {
     int idx = ex->call_index;
     if (idx != counter_call) { memset(counters, 0, sizeof counters); counter_call = idx; }
     int k = ++counters[fn];
-    if (trace) { char b[128]; snprintf(b, sizeof b, "ftrace\t%d\t%s\t%d\n", idx, FN[fn], k); wr(ex->rec_fd, b); }
+    if (trace) {
+        const char *bn = strrchr(di.dli_fname, '/'); bn = bn ? bn + 1 : di.dli_fname;
+        char b[256]; snprintf(b, sizeof b, "ftrace\t%d\t%s\t%d\t%s+0x%lx\n", idx, FN[fn], k, bn, (unsigned long)((char *)ra - (char *)di.dli_fbase)); wr(ex->rec_fd, b);
+    }
     for (int i = 0; i < nspecs; i++) {
         struct spec *s = &specs[i];
         if (s->fn != fn || s->k != k) continue;
